@@ -4,6 +4,7 @@
    instance) and C12_defs/C12_grid_*/C12_main.v (binary64 kernel evaluation on an explicit grid).
    The model is regenerated from /repo on every run. *)
 From Coq Require Import Reals ZArith List String PrimFloat.
+Set Warnings "-ambiguous-paths".
 From Coquelicot Require Import Coquelicot.
 From PyLib Require Import PyVal PyBuiltins Ideal.
 From Gen Require Import M_base M_Angle M_Interpolation.
